@@ -277,8 +277,19 @@ def make_obj(spec):
             g[i0:i1, j0:j1, k0:k1] = v
         for (i, j, k, v) in spec.get('vox', []):
             g[i, j, k] = v
-        return navis.VoxelNeuron(g, units=spec.get('units', '1 um'), offset=np.array(spec['offset'], dtype=float),
-                                 name=spec.get('name', 'vx'), id=spec.get('id', 3))
+        cn = make_conns(spec, with_node_id=False) if spec.get('conns') else None
+        if spec.get('from_voxels') and np.any(g != 0):
+            # built from voxel COORDINATES (+ values): `.shape` is max index + 1, `.bbox` ends at the last occupied voxel
+            idx = np.argwhere(g != 0)
+            n = navis.VoxelNeuron(idx, units=spec.get('units', '1 um'), offset=np.array(spec['offset'], dtype=float),
+                                  name=spec.get('name', 'vx'), id=spec.get('id', 3))
+            n.values = g[g != 0]
+        else:
+            n = navis.VoxelNeuron(g, units=spec.get('units', '1 um'), offset=np.array(spec['offset'], dtype=float),
+                                  name=spec.get('name', 'vx'), id=spec.get('id', 3))
+        if cn is not None:
+            n.connectors = cn
+        return n
     raise ValueError(t)
 
 
@@ -450,7 +461,9 @@ def snap(x):
     if isinstance(x, navis.NeuronList):
         return ['NL'] + [snap(n) for n in x]
     if isinstance(x, navis.VoxelNeuron):
-        return ['VX', x.grid.tobytes(), str(x.grid.dtype), x.grid.shape, str(x.units), tuple(map(float, x.offset)), x.name, str(x.id)]
+        cn = getattr(x, 'connectors', None)
+        return ['VX', x.grid.tobytes(), str(x.grid.dtype), x.grid.shape, str(x.units), tuple(map(float, x.offset)), x.name, str(x.id),
+                None if cn is None else (cn.to_json(), [str(t) for t in cn.dtypes], list(cn.columns))]
     if isinstance(x, navis.BaseNeuron):
         d = extract(x)
         extra = []
